@@ -1070,7 +1070,8 @@ def sd14(F, R):
             return inf(g)
         except Exception:
             return False
-    idle = lambda g: g.kind == "value" and g.value == 1 and "Ok" in tstr(g.term) and has_sub(g.term, lambda q: q[0] == "call" and q[1] and path_matches(q[1], "SdCardInner::card_command"))
+    from .ev import cmp_forms as _cf14
+    idle = lambda g: any(op == "Eq" and t_ is True and strip_refs(b_)[:2] == ("c", 1) and "Ok" in tstr(a_) and has_sub(a_, lambda q: q[0] == "call" and q[1] and path_matches(q[1], "SdCardInner::card_command")) for (op, a_, b_, t_) in _cf14(g))
     for a, z in zip(order, order[1:]):
         if a == "CMD0":
             okd, _ = guarded(f, byname[z][0], lambda g: idle(g) or inf2(g))
